@@ -192,6 +192,21 @@ def run(chk):
         # the edges the GROUP registry holds for the same components (what dr.run(<group>) / the default graph sort on)
         whole("group-graph", lambda b: dr.run(world.group_graph(list(graph)), broker=b))
         whole("run_incremental", lambda b: list(dr.run_incremental(g2(), b)))
+        if dropped is None:
+            # the engine builds the graph itself: from a list of components, from a single component
+            tcomps = [world.comps[t] for t in targets]
+            whole("run(list of components)", lambda b: dr.run(list(tcomps), broker=b))
+            whole("run(set of components)", lambda b: dr.run(set(tcomps), broker=b))
+            if len(tcomps) == 1:
+                whole("run(component)", lambda b: dr.run(tcomps[0], broker=b))
+
+        def entry_serial(b):
+            out = insights._run(b, graph=g2(), root=None, context=Ctx, parallel=False)
+            if out is not b:
+                raise AssertionError("_run(parallel=False) returned %r instead of the broker" % (type(out),))
+            del b.instances[Ctx]
+        if idx % 4 == 2:
+            whole("_run(serial)", entry_serial)
         pool = DeferPool(rng)
         whole("run_all/defer", lambda b: dr.run_all(g2(), b, pool))
         if idx % 4 == 0:
